@@ -186,6 +186,8 @@ func (w *World) spawnObserver() {
 			case *Cmd:
 				e.ID = p.ID
 				e.Info = "Cmd"
+			case ves.ActorKilledEvent:
+				e.Info = "ves.ActorKilledEvent of=" + refPath(p.ActorRef)
 			case ves.DeathLetterEvent:
 				// an undeliverable user message that is itself a DeathLetterEvent value (sent as such by a workload, marked
 				// "dlwrap"); anything else of this shape is the library wrapping its own dead letters and is not attributed
